@@ -18,5 +18,6 @@ CONSTANTS
   RearmPerRead = FALSE
   NoCloseOnError = FALSE
   RearmAfterConnect = FALSE
+  UdpStrays = "dropped"
 CHECK_DEADLOCK FALSE
 CONSTRAINT Export
